@@ -51,6 +51,7 @@ class Profile:
     p_fresh: float = 0.0             # per op: another instance of the class over a fresh model, other start_value
     p_set_allow: float = 0.0         # per op: allow_event_without_transition assigned after construction
     p_alias_sub: float = 0.12        # per scenario: an event re-declared under a second name by a subclass
+    p_state_field: float = 0.12      # per scenario: the model attribute is not called `state`
 
 
 def gen_machine(rng: random.Random, P: Profile, scn: Scn):
@@ -290,7 +291,8 @@ def gen_ops(rng: random.Random, P: Profile, scn: Scn, evs):
         elif r < P.p_activate:
             ops.append(("activate",))
         elif r < P.p_activate + P.p_reconstruct:
-            ops.append(("reconstruct",))
+            # a new machine object over the same model, or the machine replaced by a deep copy of itself
+            ops.append(("reconstruct", "copy") if rng.random() < 0.4 else ("reconstruct",))
         elif rng.random() < P.p_unknown_event:
             if rng.random() < P.p_attr_event:
                 # not an event, but an attribute of the machine: a state id, a callback method, API names
@@ -327,6 +329,8 @@ def gen_scenario(rng: random.Random, P: Profile, name: str) -> Scn:
         scn.start = rng.choice([s.val for s in scn.states])
     n = gen_ops(rng, P, scn, evs)
     gen_acts(rng, P, scn, evs, n)
+    if rng.random() < P.p_state_field:
+        scn.state_field = rng.choice(["status", "st8", "_s", "current"])
     return scn
 
 
